@@ -401,7 +401,9 @@ impl World {
                                 if is_triple {
                                     None
                                 } else if w.kind == WKind::Create {
-                                    if versioned { None } else { Some("rollback-residue") }
+                                    // rollback removes created entities from every access path, adjacency included
+                                    // (repo fix 8b51835); nothing of a rolled-back creation may be observable
+                                    None
                                 } else {
                                     Some("rollback-residue")
                                 }
